@@ -1880,7 +1880,11 @@ def decompress(file_obj, file_type):
         file_obj = wrap_as_stream(file_obj)
 
     if file_type.endswith("zip"):
-        archive = zipfile.ZipFile(file_obj)
+        # every member is read into memory below so read the archive into
+        # memory first: `zipfile` trusts the sizes in a member header and
+        # a file on disk allocates the whole requested buffer before
+        # reading, which is a gigabyte for a single corrupt byte
+        archive = zipfile.ZipFile(BytesIO(file_obj.read()))
         return {name: wrap_as_stream(archive.read(name)) for name in archive.namelist()}
     if file_type.endswith("bz2"):
         import bz2
